@@ -106,6 +106,11 @@ type Exec struct {
 	clockNS  int64
 	timers   []*timerEnt
 	timerSeq int
+	// idle hooks: run (each as a short-lived background thread) whenever nothing is enabled,
+	// before the clock advances to the next timer; idleRan guards against running them twice
+	// for the same quiescent moment
+	idleHooks []func()
+	idleRan   bool
 	chans    map[uintptr]*chanState
 	chooser  func(n int, cost bool, label string) int
 	Trace    []Choice
@@ -362,6 +367,14 @@ func (x *Exec) pick() *thread {
 			}
 		}
 		if len(en) == 0 {
+			if len(x.idleHooks) > 0 && !x.idleRan && x.haveDueableTimer() {
+				x.idleRan = true
+				for _, f := range x.idleHooks {
+					x.newThread("idle-hook", false, f)
+				}
+				continue
+			}
+			x.idleRan = false
 			if x.fireNextTimers() {
 				continue
 			}
@@ -475,6 +488,17 @@ func Go(site string, f func()) {
 
 // OnSpawn, when set by a harness, observes every background spawn (site, thread id).
 var OnSpawn func(site string, tid int)
+
+// OnIdle registers f for the current execution: it is run as a background thread at every
+// quiescent moment (no thread enabled) just before virtual time advances to the next timer.
+// Meant for observers (an API client polling while the system waits).
+func OnIdle(f func()) {
+	x := cur
+	if x == nil || x.finished {
+		return
+	}
+	x.idleHooks = append(x.idleHooks, f)
+}
 
 // GoFG spawns a foreground thread (must finish for the execution to be complete).
 func GoFG(site string, f func()) {
